@@ -562,7 +562,7 @@ class C03(Check):
     id = "C03"
     nshards = 96
     rule = (
-        "product-exhaustive: register size x every gate sequence up to the length bound over "
+        "product-exhaustive: register size (1-3; 4-6 for one gate and 4 for two gates, thorough 5-7 / 5) x every gate sequence up to the length bound over "
         "{X,H,Rz,CX,A2,A3,I_X,N1} x every ordered tuple of distinct qubits x theta in {0.3,-1.1} x "
         "every applicable embedding (plain, loop c around one gate for c in 0..3 literal and let-valued with/without "
         "override to 0, macro with qubit+angle parameters, "
@@ -586,9 +586,11 @@ class C03(Check):
     def bounds(self, tier):
         if tier == "quick":
             return {"n": [1, 2, 3], "max_len_full_alphabet": 2, "len3_reduced_alphabet_n": [],
+                    "wide_n_single_gate_all_embeddings": [4, 5, 6], "wide_n_two_gates_plain_alias_macro": [4],
                     "thetas": list(THETAS), "loop_counts": list(LOOP_COUNTS),
                     "let_loop_counts": [3, "2 overridden to 0"], "subcircuits_per_program": 2}
         return {"n": [1, 2, 3, 4], "max_len_full_alphabet": 2, "len3_reduced_alphabet_n": [1, 2, 3],
+                "wide_n_single_gate_all_embeddings": [5, 6, 7], "wide_n_two_gates_plain_alias_macro": [5],
                 "reduced_alphabet": list(REDUCED), "thetas": list(THETAS), "loop_counts": list(LOOP_COUNTS),
                 "let_loop_counts": [3, "2 overridden to 0"], "let_loop_max_len": LETLOOP_MAX_LEN,
                 "subcircuits_per_program": 2}
@@ -606,7 +608,28 @@ class C03(Check):
             for seq in itertools.product(A, repeat=3):
                 yield n, tuple(seq)
 
+    WIDE_TWO = ("plain", "alias", "macro")
+
+    def wide_sequences(self, tier):
+        """wider registers: every ordered qubit tuple of every gate on n = 4..7 qubits (a 3-qubit gate on a
+        non-contiguous or permuted tuple needs n >= 4), one gate under every embedding, two under three"""
+        b = self.bounds(tier)
+        for n in b["wide_n_single_gate_all_embeddings"]:
+            for g in alphabet(n):
+                yield n, (g,), None
+        for n in b["wide_n_two_gates_plain_alias_macro"]:
+            A = alphabet(n)
+            for seq in itertools.product(A, repeat=2):
+                yield n, tuple(seq), self.WIDE_TWO
+
     def all_cases(self, tier):
+        for n, seq, only in self.wide_sequences(tier):
+            for emb in embeddings(seq):
+                if only is not None and emb not in only:
+                    continue
+                yield (n, emb, 0, seq)
+                if emb not in TABLE_RUNS:
+                    yield (n, emb, 1, seq)
         for n, seq in self.sequences(tier):
             for emb in embeddings(seq):
                 yield (n, emb, 0, seq)
